@@ -79,6 +79,17 @@ Theorem C32_callers_err_only_agree : forall v : ag_verdict,
 Proof. exact ag_caller_view_agrees. Qed.
 Print Assumptions C32_callers_err_only_agree.
 
+(* verification is a pure function of (keys, messages, signatures): the verdict of a call does not
+   depend on the verifications performed before it with the same scheme objects. The engine runs
+   sequences of calls over long-lived objects; a different verdict on a later call is a
+   correspondence failure. *)
+Theorem C32_verdict_is_history_independent : forall F f0 f1 fadd fmul feqb n
+    (pre post : list (nat * list (ag_item F))) (c : nat * list (ag_item F)),
+  nth (length pre) (ag_history F f0 f1 fadd fmul feqb n (pre ++ c :: post)) AgPanic
+  = ag_run F f0 f1 fadd fmul feqb n (fst c) (snd c).
+Proof. exact ag_history_independent. Qed.
+Print Assumptions C32_verdict_is_history_independent.
+
 (* Non-vacuity over Z_r: three valid signatures in batches of 2 are accepted; corrupting one is
    rejected; the cancelling pair is accepted *)
 Example C32_example :
